@@ -1,7 +1,11 @@
 /-
-Lemmas/C10Alt1.lean — alternative 1 of `st_Weyl_down4` (from the cached Riemann tensor).
+Lemmas/C10Alt1.lean — alternative 1 of `st_Weyl_down4` (from the cached Riemann tensor):
+the generated 256-entry table equals the textbook expression; Ricci tensor and scalar
+as the code contracts them.
 -/
 import AurelVerif.Gen.CoreBig_st_Weyl_down4
+import AurelVerif.Gen.CoreBig_st_Riemann_uddd4
+import AurelVerif.Gen.CoreKeys
 import AurelVerif.Lemmas.CoreTac
 import AurelVerif.Spec.Weyl
 
@@ -13,10 +17,30 @@ open AurelVerif.Gen.Core AurelVerif.Tensor AurelVerif.CoreTac AurelVerif.Spec.We
 
 variable {K : Type} [Field K]
 
-theorem alt1_spec_aux (e : Env K) : ∀ a b c d : Fin 4,
+theorem alt1_matter_spec (e : Env K) : ∀ a b c d : Fin 4,
     st_Weyl_down4__st_Riemann_down4_matter e a b c d
       = weyl e.gdown4 e.st_Riemann_down4 e.st_Ricci_down4 e.st_RicciS a b c d := by
   cases4 <;> cases4 <;> cases4 <;> cases4 <;>
     (simp only [st_Weyl_down4__st_Riemann_down4_matter, ↓vec4_0, ↓vec4_1, ↓vec4_2, ↓vec4_3, weyl]; ring)
+
+theorem alt1_vacuum_spec (e : Env K) : ∀ a b c d : Fin 4,
+    st_Weyl_down4__st_Riemann_down4_vacuum e a b c d = e.st_Riemann_down4 a b c d := by
+  cases4 <;> cases4 <;> cases4 <;> cases4 <;>
+    (simp only [st_Weyl_down4__st_Riemann_down4_vacuum, ↓vec4_0, ↓vec4_1, ↓vec4_2, ↓vec4_3])
+
+/-- `st_Riemann_uddd4`: `R^i{}_{bcd} = R_{abcd} g^{ai}`. -/
+theorem riemann_uddd_spec (e : Env K) : ∀ i b c d : Fin 4,
+    st_Riemann_uddd4 e i b c d = ∑ a, e.st_Riemann_down4 a b c d * e.gup4 a i := by
+  cases4 <;> cases4 <;> cases4 <;> cases4 <;>
+    (simp only [st_Riemann_uddd4, ↓vec4_0, ↓vec4_1, ↓vec4_2, ↓vec4_3, Fin.sum_univ_four])
+
+/-- `st_Ricci_down4` (no `Tdown4` supplied): `R_bd = R^a{}_{bad}`. -/
+theorem ricci_spec (e : Env K) : ∀ b d : Fin 4,
+    st_Ricci_down4__dflt e b d = ∑ a, e.st_Riemann_uddd4 a b a d := by
+  cases4 <;> cases4 <;> (simp only [st_Ricci_down4__dflt, ↓vec4_0, ↓vec4_1, ↓vec4_2, ↓vec4_3, Fin.sum_univ_four])
+
+/-- `st_RicciS = g^{jk} R_jk`. -/
+theorem ricciS_spec (e : Env K) : st_RicciS e = ∑ j, ∑ k, e.gup4 j k * e.st_Ricci_down4 j k := by
+  unfold_core; ring
 
 end AurelVerif.C10
